@@ -111,6 +111,12 @@ def requested(scn):
     return [{'name': OID[a], 'friendly': a, 'required': req, 'values': [VAL[v] for v in vals]} for a, req, vals in spec]
 
 
+def named_attributes():
+    from saml2_tophat.saml import Attribute
+    return [Attribute(name=OID[a], name_format='urn:oasis:names:tc:SAML:2.0:attrname-format:uri', friendly_name=a)
+            for a in ('givenName', 'mail', 'title')]
+
+
 def replay(case):
     scn = case['scn']
     idp = both_roles(federation(), policy_dict(scn))
@@ -128,6 +134,9 @@ def replay(case):
                                                                        authn={'class_ref': sb.PASSWORD, 'authn_auth': 'x'}),
         # the attribute-authority path: policy of the "aa" service, no best effort
         'attribute': lambda ident=identity, e=me: idp.create_attribute_response(dict(ident), 'id1', env.SP_ACS_POST, e, name_id=nid),
+        # ... the answer to a query that names the attributes it is after (all three of ours): naming them adds no right to them
+        'attribute_named': lambda ident=identity, e=me: idp.create_attribute_response(dict(ident), 'id1', env.SP_ACS_POST, e, name_id=nid,
+                                                                                      attributes=named_attributes()),
     }
     prev = scn.get('prev') or {'served': False}
     if prev['served']:
